@@ -825,7 +825,13 @@ func (g *c02Gen) mutate(q c02Req) (c02Req, string) {
 		q.bhdrAbsent = false
 		return q, "unknown_backend"
 	case 11:
-		switch r.intn(6) {
+		switch r.intn(7) {
+		case 6:
+			// no random at all, checksum = MAC over the body alone: the equation holds for the
+			// empty random, the protocol still demands the header
+			q.rnd = ""
+			q.rndAbsent = r.chance(50)
+			q.chk = c02Mac(g.w.secret(q.target), "", []byte(q.body))
 		case 0:
 			q.rnd, q.rndAbsent = "", true
 		case 1:
@@ -1212,6 +1218,7 @@ func TestVerifC02(t *testing.T) {
 
 	c02Oversize(t, world(catalog[1]), sink)
 	c02Concurrent(t, env, world(catalog[1]), sink)
+	c02SharedSecretNote(t, env, sink)
 	var outCfgs []c02Cfg
 	for ci, cfg := range catalog {
 		if cfg.Name == "single" || cfg.Name == "near3" {
@@ -1353,6 +1360,41 @@ func c02Concurrent(t *testing.T, env verifEnv, w *c02World, sink *caseSink) {
 	}
 	sink.stats.Histogram["concurrent_requests"] = workers * per
 	sink.stats.Histogram["concurrent_wrong_answers"] = bad
+}
+
+// Outside the property's quantifier (it asks for distinct secrets), recorded as an observation:
+// two backends with the SAME secret and a request without backend header.  The server tries
+// the backends in the order of a Go map iteration, so the backend (tenant) whose clients
+// receive the event is not determined by the request.
+func c02SharedSecretNote(t *testing.T, env verifEnv, sink *caseSink) {
+	secret := "shared-secret-of-both"
+	t.Run("sharedsecret", func(t *testing.T) {
+		w := c02NewWorld(t, c02Cfg{Name: "same_secret2", Backends: []c02B{{1, "", secret}, {2, "", secret}}}, true)
+		n := 60
+		got := []int{0, 0}
+		for i := 0; i < n; i++ {
+			body := []byte(fmt.Sprintf(`{"type":"message","message":{"data":{"i":%d}}}`, i))
+			rnd := fmt.Sprintf("%064x", i+1000)
+			req := httptest.NewRequest("POST", "/api/v1/room/"+c02Room, bytes.NewReader(body))
+			req.RemoteAddr = "192.0.2.10:4000"
+			req.Header.Set("Content-Type", "application/json")
+			req.Header.Set(c02HdrRandom, rnd)
+			req.Header.Set(c02HdrChecksum, c02Mac(secret, rnd, body))
+			rec := httptest.NewRecorder()
+			w.router.ServeHTTP(rec, req)
+			if rec.Code != http.StatusOK {
+				sink.violation(900300, fmt.Sprintf("correctly signed request without backend header refused with %d", rec.Code), nil)
+			}
+			got[0] += w.collect(1)
+			got[1] += w.collect(2)
+		}
+		sink.stats.Histogram["same_secret_noheader_requests"] = n
+		sink.stats.Histogram["same_secret_noheader_delivered_to_backend1"] = got[0]
+		sink.stats.Histogram["same_secret_noheader_delivered_to_backend2"] = got[1]
+		if got[0]+got[1] != n {
+			sink.violation(900301, fmt.Sprintf("%d requests without backend header caused %d+%d events", n, got[0], got[1]), nil)
+		}
+	})
 }
 
 // ---- outgoing direction -------------------------------------------------------------------------
